@@ -457,9 +457,19 @@ fn body_fault_histories(ch: &Ch) -> Run {
       if call.kind != "load" || !call.specifier.path().starts_with("/r") {
         return Answer::Honest;
       }
-      // honest / not-found / error / redirect to any member of the chain
-      let k = ch2.choose("answer", 3 + len + 1);
+      // honest / not-found / error / redirect to any member of the chain /
+      // an integrity failure (the builder retries once, bypassing the cache) /
+      // a module delivered under another final specifier
+      let k = ch2.choose("answer", 3 + len + 1 + 2);
       match k {
+        j if j == 3 + len + 1 => {
+          inj.borrow_mut().push(format!("call {idx} {} -> checksum mismatch", call.specifier));
+          Answer::Load(Err(deno_graph::source::LoadError::ChecksumIntegrity(deno_graph::source::ChecksumIntegrityError { actual: "aa".into(), expected: "bb".into() })))
+        }
+        j if j == 3 + len + 2 => {
+          inj.borrow_mut().push(format!("call {idx} {} -> module with final specifier https://x/moved.js", call.specifier));
+          Answer::Load(Ok(Some(LoadResponse::Module { content: std::sync::Arc::from(&b"export const moved = 1;"[..]), mtime: None, specifier: url("https://x/moved.js"), maybe_headers: None })))
+        }
         0 => Answer::Honest,
         1 => {
           inj.borrow_mut().push(format!("call {idx} {} -> not-found", call.specifier));
@@ -511,7 +521,8 @@ fn body_fault_histories(ch: &Ch) -> Run {
   } else {
     "fault-history"
   };
-  let extra: Vec<_> = (0..=len).map(|i| url(&r(i))).collect();
+  let mut extra: Vec<_> = (0..=len).map(|i| url(&r(i))).collect();
+  extra.push(url("https://x/moved.js"));
   let before = run.violations.len();
   let checks = check_lookups(&graph, &extra, shape_class, &mut run);
   for v in run.violations.iter_mut().skip(before) {
